@@ -195,6 +195,9 @@ func (f *Frame) execCallStmt(call *ast.CallExpr, st *State, k func(*State, []Val
 	}
 	// 2. contract
 	if c := in.W.contractFor(key); c != nil && !(f.depth == 0 && false) {
+		if c.Pure {
+			return done(st, f.pureApply(c, fn, recv, args, st))
+		}
 		if !c.Inline {
 			vs := f.applyContract(c, fn, recv, args, st, call, callOrd)
 			return done(st, vs)
@@ -275,7 +278,7 @@ func (f *Frame) evalConversion(call *ast.CallExpr, to types.Type, st *State) Val
 		return Sc{f.nameIt(st, "conv", f.wrap(v.(Sc).T, to))}
 	case isString(to) && isByteSlice(from):
 		sl := v.(SliceV)
-		return Sc{App("mkstr", SStr, in.regionContent(st, sl.Reg, f), sl.Off, sl.Len)}
+		return Sc{in.mkStr(sl, st, f)}
 	case isByteSlice(to) && isString(from):
 		return in.thawFresh(v.(Sc).T, st)
 	case isString(to) && isString(from):
@@ -318,6 +321,7 @@ func (f *Frame) evalConversion(call *ast.CallExpr, to types.Type, st *State) Val
 // thawFresh gives a private mutable copy of a Str as []byte.
 func (in *Interp) thawFresh(s Term, st *State) Val {
 	reg := in.newCell("bytes", CRegion, types.Typ[types.Uint8])
+	in.frozenOf[reg] = s
 	st.store[reg] = ArrV{T: App("sarr", ArrSort(SInt), s)}
 	ln := App("slen", SInt, s)
 	return SliceV{Reg: reg, Off: IntLit(0), Len: ln, Cap: ln, Nil: TFalse}
@@ -371,7 +375,7 @@ func (f *Frame) evalBuiltin(name string, call *ast.CallExpr, st *State) []Val {
 			reg := in.newCell("make", CRegion, u.Elem())
 			es := in.sortOf(u.Elem())
 			z := in.zeroTerm(u.Elem(), f)
-			st.store[reg] = ArrV{T: Term{S: fmt.Sprintf("((as const (Array Int %s)) %s)", es, z.S), Sort: ArrSort(es)}}
+			st.store[reg] = ArrV{T: in.constArray(es, z)}
 			return []Val{SliceV{Reg: reg, Off: IntLit(0), Len: ln, Cap: cp, Nil: TFalse}}
 		case *types.Map:
 			c := in.newCell("make{}", CMap, t)
@@ -831,7 +835,7 @@ func (f *Frame) pureExternCall(key string, fn *types.Func, recv Val, recvT types
 		in.D.declareFun(name, sorts, rs)
 		t := App(name, rs, ts...)
 		if rs == SInt {
-			st.assume(inRange(t, rt))
+			in.ufRangeAxiom(name, sorts, rt)
 		}
 		res = append(res, in.thaw(t, rt, f))
 	}
@@ -840,3 +844,119 @@ func (f *Frame) pureExternCall(key string, fn *types.Func, recv Val, recvT types
 }
 
 var _ = token.NoPos
+
+// funcObj finds the types.Func a contract is about.
+func (w *World) funcObj(c *Contract) *types.Func {
+	pi, ok := w.Pkgs[c.Pkg]
+	if !ok {
+		return nil
+	}
+	scope := pi.P.Types.Scope()
+	name := c.Name
+	if strings.HasPrefix(name, "(") {
+		// (*T).M or (T).M
+		cl := strings.Index(name, ")")
+		tn := strings.TrimPrefix(name[1:cl], "*")
+		m := name[cl+2:]
+		tobj, _ := scope.Lookup(tn).(*types.TypeName)
+		if tobj == nil {
+			return nil
+		}
+		obj, _, _ := types.LookupFieldOrMethod(types.NewPointer(tobj.Type()), true, pi.P.Types, m)
+		fn, _ := obj.(*types.Func)
+		return fn
+	}
+	if i := strings.Index(name, "."); i >= 0 {
+		tobj, _ := scope.Lookup(name[:i]).(*types.TypeName)
+		if tobj == nil {
+			return nil
+		}
+		obj, _, _ := types.LookupFieldOrMethod(tobj.Type(), true, pi.P.Types, name[i+1:])
+		fn, _ := obj.(*types.Func)
+		return fn
+	}
+	fn, _ := scope.Lookup(name).(*types.Func)
+	return fn
+}
+
+// pureApply models a call to a function declared `pure` as an uninterpreted
+// function of (receiver, arguments); its ensures clauses are assumed for the result.
+func (f *Frame) pureApply(c *Contract, fn *types.Func, recv Val, args []Val, st *State) []Val {
+	in := f.in
+	sig := fn.Type().(*types.Signature)
+	var ts []Term
+	var sorts []string
+	if recv != nil && sig.Recv() != nil {
+		rt := sig.Recv().Type()
+		if p, ok := recv.(PtrV); ok {
+			if _, isPtr := rt.Underlying().(*types.Pointer); !isPtr {
+				recv = in.load(st, p.To, f)
+			}
+		}
+		t := in.freeze(recv, rt, st, f)
+		ts = append(ts, t)
+		sorts = append(sorts, t.Sort)
+	}
+	for i, a := range args {
+		if i >= sig.Params().Len() {
+			break
+		}
+		t := in.freeze(a, sig.Params().At(i).Type(), st, f)
+		ts = append(ts, t)
+		sorts = append(sorts, t.Sort)
+	}
+	var res []Val
+	for i := 0; i < sig.Results().Len(); i++ {
+		rt := f.resolve(sig.Results().At(i).Type())
+		rs := in.sortOf(rt)
+		name := fmt.Sprintf("uf_%s_%d", sanitize(c.Pkg+"."+c.Name), i)
+		in.D.declareFun(name, sorts, rs)
+		t := App(name, rs, ts...)
+		if rs == SInt {
+			in.ufRangeAxiom(name, sorts, rt)
+		}
+		res = append(res, in.thaw(t, rt, f))
+	}
+	in.note("pure method/function (uninterpreted function of receiver and arguments; assumption: it is a side-effect-free, deterministic getter): " + c.Pkg + "." + c.Name)
+	if len(c.Ensures) > 0 {
+		env := &SpecEnv{in: in, f: f, st: st, old: st, vars: map[string]Val{}, pkgPath: c.Pkg, lets: map[string]SExpr{}}
+		names := in.W.paramNames(c, fn)
+		if names.recv != "" && recv != nil {
+			env.vars[names.recv] = recv
+		}
+		for i, n := range names.params {
+			if n != "" && n != "_" && i < len(args) {
+				env.vars[n] = args[i]
+			}
+		}
+		for i, v := range res {
+			env.vars[fmt.Sprintf("result%d", i)] = v
+		}
+		if len(res) == 1 {
+			env.vars["result"] = res[0]
+		}
+		for _, e := range c.Ensures {
+			st.assume(env.evalBool(e.E))
+		}
+	}
+	return res
+}
+
+// ufRangeAxiom: results of an uninterpreted function of integer type stay in the type's range.
+func (in *Interp) ufRangeAxiom(name string, sorts []string, rt types.Type) {
+	lo, hi, ok := intRange(rt)
+	if !ok {
+		return
+	}
+	var vars []Term
+	for i, s := range sorts {
+		vars = append(vars, Term{S: fmt.Sprintf("a%d", i), Sort: s})
+	}
+	app := App(name, SInt, vars...)
+	body := And(Le(BigLit(lo), app), Le(app, BigLit(hi)))
+	if len(vars) == 0 {
+		in.D.declareOnce("ufrange:"+name, fmt.Sprintf("(assert %s)", body.S))
+		return
+	}
+	in.D.declareOnce("ufrange:"+name, fmt.Sprintf("(assert %s)", Forall(vars, body, []Term{app}).S))
+}
